@@ -112,3 +112,22 @@ Definition Sxx (f : vframe) (rk1 ck1 rk2 ck2 : ckey) : vres :=
   | Ok _ => Err "not a frame"
   | Err e => Err e
   end.
+
+(* ---- Index.loc_to_iloc / IndexHierarchy.loc_to_iloc (public label -> position translation) ---- *)
+Definition sel_eqb (a b : sel) : bool :=
+  match a, b with
+  | SOne x, SOne y => x =? y
+  | SMany p, SMany q => list_eqb Z.eqb p q
+  | _, _ => false
+  end.
+Definition eq_sel_M (m o : res sel) : bool :=
+  match m, o with Ok a, Ok b => sel_eqb a b | Err e1, Err e2 => String.eqb e1 e2 | _, _ => false end.
+Definition eq_sel_S (s o : res sel) : bool :=
+  match s, o with
+  | Ok a, Ok b => sel_eqb a b
+  | Err e1, Err e2 => String.eqb e1 e2 || (is_lookup e1 && is_lookup e2)
+  | _, _ => false
+  end.
+Definition Ml2i (kind : axkind) (labels : list val) (k : lkey val) : res sel :=
+  ck <- M_loc val_eqb as_z_val kind labels k;; ckey_sel ck (Z.of_nat (length labels)).
+Definition Sl2i (labels : list val) (k : lkey val) : res sel := S_loc val_eqb labels k.
